@@ -241,15 +241,15 @@ theorem sync_correct {db0 src : List Entry} {root : Hash} {cb : Bool} {ops : Lis
 
 `loopRun` (ModelLoop.lean) is `trieSync.loop` with its deferred `commit(true)`: events are what the loop's `select`
 receives (a finished request with its blobs and whether `process` gave up on a task, cancellation, a new peer, a
-threshold commit); the outcome is the error value `Wait()` returns.  Tied to the code by the end-to-end oracle of the
+threshold commit with the outcome of its batch write); `w` = whether the final forced commit's write succeeds; the outcome is the error value `Wait()` returns.  Tied to the code by the end-to-end oracle of the
 harness (real Downloader, scripted peers), not by line-by-line correspondence. -/
 
 /-- **reports_incomplete.**  If the loop ends with nil (`.ok`) then nothing was pending, its state is a run of
 hash-checked deliveries and commits followed by the final commit, and the root is in the database.  Contrapositive:
-whenever the sync stops with something unanswered (a task failed with all peers, an invalid node, cancellation) the
-outcome is not `.ok`. -/
-theorem reports_incomplete {db0 : List Entry} {root : Hash} {cb : Bool} {evs : List LoopEv} {s' : St}
-    (hne : root ≠ e.emptyRoot) (h : loopRun e (newSync e db0 root cb) evs = (s', .ok)) :
+whenever the sync stops with something unanswered (a task failed with all peers, an invalid node, cancellation) or a
+batch write fails (periodic or final: `flush_failure_is_reported`), the outcome is not `.ok`. -/
+theorem reports_incomplete {db0 : List Entry} {root : Hash} {cb : Bool} {evs : List LoopEv} {s' : St} {w : Bool}
+    (hne : root ≠ e.emptyRoot) (h : loopRun e w (newSync e db0 root cb) evs = (s', .ok)) :
     ∃ ops, (∀ op ∈ ops, LoopOp op) ∧ (run e (newSync e db0 root cb) ops).pending = 0 ∧
       s' = (step e (run e (newSync e db0 root cb) ops) (.commit none)).1 ∧ s'.dbHas root = true := by
   obtain ⟨ops, hops, hp, hs⟩ := loopRun_ok evs _ s' h
@@ -257,13 +257,46 @@ theorem reports_incomplete {db0 : List Entry} {root : Hash} {cb : Bool} {evs : L
   rw [hs]
   exact complete_when_done (fun op hop => loopOp_not_restart (hops op hop)) hne hp
 
+/-- **flush_failure_is_reported.**  A failed batch write — of a periodic flush reached while something is pending, or
+of the final forced commit — never ends in `.ok`. -/
+theorem flush_failure_is_reported (e : Env) (w : Bool) (s : St) (t : List LoopEv) :
+    (s.pending ≠ 0 → (loopRun e w s (.flush false :: t)).2 = .err) ∧
+    (∀ evs, (loopRun e false s evs).2 ≠ .ok) := by
+  refine ⟨fun hp => by simp [loopRun, hp], ?_⟩
+  intro evs hok
+  have h : loopRun e false s evs = ((loopRun e false s evs).1, .ok) := by rw [← hok]
+  clear hok
+  generalize (loopRun e false s evs).1 = s' at h
+  induction evs generalizing s with
+  | nil =>
+    unfold loopRun at h
+    split at h
+    · exact absurd (loopExit_ok h) (by simp [loopExit] at h)
+    · simp at h
+  | cons ev t ih =>
+    unfold loopRun at h
+    split at h
+    · simp [loopExit] at h
+    · cases ev with
+      | cancel => simp [loopExit] at h
+      | wake => exact ih _ h
+      | flush wok =>
+        cases wok with
+        | false => simp at h
+        | true => exact ih _ h
+      | response blobs gaveUp =>
+        simp only at h
+        split at h
+        · simp [loopExit] at h
+        · exact ih _ h
+
 /-- **loop_ok_reproduces_source.**  `reports_incomplete` composed with `sync_correct`: for a clash-free source, when
 the loop ends with nil the database shows a reader from the root exactly the source's entries, or Keccak collides. -/
-theorem loop_ok_reproduces_source {db0 src : List Entry} {root : Hash} {cb : Bool} {evs : List LoopEv} {s' : St}
+theorem loop_ok_reproduces_source {db0 src : List Entry} {root : Hash} {cb : Bool} {evs : List LoopEv} {s' : St} {w : Bool}
     (hd0 : DbClosed e role db0) (hk0 : HashKeyed e db0)
     (hsrc : DbClosed e role src) (hksrc : HashKeyed e src) (hsok : SrcOK e role src)
     (hroot : hasKey src root = true) (hrole : role root = .node cb) (hnz : root ≠ e.zeroHash) (hne : root ≠ e.emptyRoot)
-    (h : loopRun e (newSync e db0 root cb) evs = (s', .ok)) :
+    (h : loopRun e w (newSync e db0 root cb) evs = (s', .ok)) :
     Collision e ∨
     (hasKey s'.db root = true ∧ DbClosed e role s'.db ∧
      ∀ x, (Reach e role s'.db root x ↔ Reach e role src root x) ∧
@@ -425,10 +458,21 @@ example : ∀ op ∈ okOps2, SrcOp okEnv okRole okSrc op := by
 
 /-- tests on literals: a task given up and a cancellation end with `.err`; silence is `.waiting`;
 honest answers end with `.ok` -/
-example : (loopRun okEnv (newSync okEnv [] 10 true) [.response [1, 3] false, .response [] true]).2 = .err ∧
-    (loopRun okEnv (newSync okEnv [] 10 true) [.response [1] false, .cancel]).2 = .err ∧
-    (loopRun okEnv (newSync okEnv [] 10 true) [.response [1, 2] false, .wake]).2 = .waiting ∧
-    (loopRun okEnv (newSync okEnv [] 10 true) [.response [1, 7, 2] false, .flush, .response [3, 4, 5, 6] false]).2 = .ok := by
+example : (loopRun okEnv true (newSync okEnv [] 10 true) [.response [1, 3] false, .response [] true]).2 = .err ∧
+    (loopRun okEnv true (newSync okEnv [] 10 true) [.response [1] false, .cancel]).2 = .err ∧
+    (loopRun okEnv true (newSync okEnv [] 10 true) [.response [1, 2] false, .wake]).2 = .waiting ∧
+    (loopRun okEnv true (newSync okEnv [] 10 true) [.response [1, 7, 2] false, .flush true, .response [3, 4, 5, 6] false]).2 = .ok ∧
+    (loopRun okEnv true (newSync okEnv [] 10 true) [.response [1, 7, 2] false, .flush false, .response [3, 4, 5, 6] false]).2 = .err := by
+  decide
+
+/-- **lost_flush_counterexample** (seeded change C19-6 on the model).  If the loop tolerated a failed periodic write
+and went on (`lostFlush`: the staged entries are in neither membatch nor database), honest answers would end with
+`Pending = 0` and the root in the database while the stored node 20 lacks its child 21 and 12, 20 are missing. -/
+theorem lost_flush_counterexample :
+    let s1 := run okEnv (newSync okEnv [] 10 true) [.deliver 1, .deliver 3, .deliver 4, .deliver 5]
+    let s2 := (step okEnv (run okEnv (lostFlush s1) [.deliver 2, .deliver 6]) (.commit none)).1
+    s1.membatch.map (·.1) = [21, 20, 12] ∧ s2.pending = 0 ∧ s2.dbHas 10 = true ∧ s2.dbHas 12 = false ∧
+      s2.dbHas 20 = false ∧ s2.dbHas 21 = false := by
   decide
 
 end YouVerif.C19
